@@ -390,6 +390,7 @@ impl Prop for C08 {
                 cfg_mode: CfgMode::DefaultOnly,
                 cfg_ctx_limit: 0,
                 l1: false,
+                dev_editions: vec![],
             },
             None,
         );
